@@ -593,6 +593,8 @@ def main(chk):
         if r["fails"]:
             chk.violation("saved-replay|" + path, rec.get("case"), r["expected"], r["actual"], sub="replay")
     quick = chk.tier == "quick"
+    import time as _time
+    _t0 = _time.time()
     rec, es_names = receivers()
     impl = implementation_names()
     chk.extra["implementation_names"] = len(impl)
@@ -636,6 +638,7 @@ def main(chk):
                               {"sub": "probe", "receiver": kind, "receiver_expr": rexpr, "name": n, "differing_forms": diff}, want, obs, sub="probe")
             elif len(chk.samples) < 8 and n in implset:
                 chk.sample({"sub": "probe", "receiver": kind, "name": n, "observation": obs[1][:6] if obs[0] == "ok" else obs})
+    _t1 = _time.time()
     # (b) typing: built-in surface
     found, gl = c04.discover_surface()
     exprs = [e for e, _, _ in c04.surface_cases(chk, found, gl)]
@@ -643,6 +646,8 @@ def main(chk):
         exprs = exprs[:: 3]
     tasks = [("exprs", b) for b in pool.chunks(exprs, 80)]
     ops = operator_exprs()
+    if quick:
+        ops = ops[chk.seed % 2 :: 2]  # every second left operand (all operators, all right operands), rotated by seed
     tasks += [("exprs", b) for b in pool.chunks(ops, 40)]
     tasks += [("exprs", b) for b in pool.chunks(argflow_exprs(), 60)]
     chk.extra["operator_grid_exprs"] = len(ops)
@@ -680,6 +685,7 @@ def main(chk):
     chk.extra["operand_stack_values_checked"] = stack_checked if monitor_ok else "monitor unavailable (VM._execute_opcode / VM.stack not found)"
     chk.extra["python_types_seen"] = sorted(pytypes)
     chk.sample({"sub": "typing", "values_inspected": inspected, "python_types_seen": sorted(pytypes)})
+    _t2 = _time.time()
     # (c)
     cases = [(s, []) for s in NONCALLING] + CALLING + rebind_cases()
     res = pool.run(hostcall_task, pool.chunks(cases, 5), timeout=300)
@@ -694,6 +700,7 @@ def main(chk):
                 chk.violation("hostcall|%s" % ("called-without-call" if not expect else "wrong-calls"), {"sub": "hostcall", "src": src}, expect, [log, st], sub="hostcall")
             elif len(expect) == 0 and len(chk.samples) < 14:
                 chk.sample({"sub": "hostcall", "src": src, "calls": log})
+    chk.extra["phase_wall_s"] = {"probe": round(_t1 - _t0, 1), "typing": round(_t2 - _t1, 1), "hostcall": round(_time.time() - _t2, 1)}
     chk.exhaustive = False
 
 
